@@ -97,14 +97,20 @@ def random_connected(rng, n, zmax):
 
 
 def build(b, edges, rng, extra_nodes=()):
-    obj = b.new(False)
+    # every third object is a WEIGHTED hypergraph with weights != 1: the statement's walk and contagion are defined
+    # by the hyperedges alone ((size - 1) per shared hyperedge), so nothing else changes
+    weighted = rng.random() < 0.34
+    obj = b.new(weighted)
     edges = [tuple(e) for e in edges]
     rng.shuffle(edges)
     with quiet():
         for n in extra_nodes:
             obj.add_node(b.lab(n))
         for e in edges:
-            obj.add_edge(b._tuple(e))
+            if weighted:
+                obj.add_edge(b._tuple(e), weight=rng.choice([2, 3, 5]))
+            else:
+                obj.add_edge(b._tuple(e))
     return obj
 
 
